@@ -40,7 +40,7 @@ def plan(pid, tier, seed):
         "needs_coca": True,
         "mc": mc,
         "gen": [],
-        "rand": 300 if quick else 6000,
+        "rand": 800 if quick else 8000,
         "trace": TRACE,
         "run_timeout": 6000,
     }
